@@ -12,6 +12,7 @@
 
 #include <bxdecay0/bb.h>
 #include <bxdecay0/genbbsub.h>
+#include <bxdecay0/decay0_generator.h>
 
 #include "diffcore_port.h"
 #include "c05_table.inc" // generated at check time from /repo/bxdecay0/*.h: includes + registry()
@@ -100,6 +101,41 @@ int main(int argc, char ** argv)
                                      a.get_particles().size(), db, b.get_particles().size()),
               tape, std::max(da, db), a, b);
         if (sample.empty() && i == 2) sample = "{\"tape\":" + tape.prefix_json(std::min<size_t>(da, 8)) + ",\"event\":" + event_json(a) + "}";
+      }
+      // the porcelain generator, once clean and once carrying stray double-beta settings (level, mode 20 / a random mode, window) that a
+      // background request has no use for - an application may fill every field from one record: same scheme, bit-identical events
+      if (!missing) {
+        for (int stray = 0; stray < 3; stray++) {
+          try {
+            bxdecay0::decay0_generator clean, dirty;
+            for (bxdecay0::decay0_generator * g : {&clean, &dirty}) {
+              g->set_decay_category(bxdecay0::decay0_generator::DECAY_CATEGORY_BACKGROUND);
+              g->set_decay_isotope(name);
+            }
+            dirty.set_decay_dbd_level(stray == 0 ? 0 : 3);
+            dirty.set_decay_dbd_mode(stray == 0 ? bxdecay0::DBDMODE_20 : (bxdecay0::dbd_mode_type)(1 + (hash_str(name) + stray) % 24));
+            if (stray == 2) dirty.set_decay_dbd_esum_range(0.5, 1.5);
+            Tape ta(seed, stream + 7), tb(seed, stream + 7);
+            clean.initialize(ta);
+            dirty.initialize(tb);
+            for (int i = 0; i < 40; i++) {
+              bxdecay0::event ea, eb;
+              ta.reseed(seed, stream + 100 + i);
+              tb.reseed(seed, stream + 100 + i);
+              clean.shoot(ta, ea);
+              dirty.shoot(tb, eb);
+              events++;
+              if (ta.pos != tb.pos || !events_bit_identical(ea, eb))
+                rec(lab + "|stray-dbd-settings", "a background generator that also carries double-beta settings gives other events than a clean one", ta, ta.pos, eb, ea);
+            }
+          } catch (std::exception & x) {
+            Mismatch & m = mm[lab + "|stray-dbd-settings"];
+            if (m.count++ == 0) {
+              m.key = lab + "|stray-dbd-settings";
+              m.detail = std::string("a background generator that also carries double-beta settings (level/mode") + (stray == 2 ? "/window" : "") + ") is refused: " + x.what();
+            }
+          }
+        }
       }
       fprintf(OUT, "{\"config\":%s,\"events\":%ld,\"distinct_signatures\":%zu,\"sample\":%s,", jstr(lab).c_str(), events, sigs.size(), sample.empty() ? "null" : sample.c_str());
       emit_mismatches(OUT, "mismatches", mm);
